@@ -10,6 +10,7 @@ import (
 	"errors"
 	"io"
 
+	"mellium.im/xmlstream"
 	"mellium.im/xmpp/stream"
 )
 
@@ -58,8 +59,17 @@ func (r *reader) Token() (xml.Token, error) {
 		// delegating to the normal handler.
 		switch t.Name.Local {
 		case "error":
+			// Decode the error from a token stream that begins with its own start
+			// element. The underlying reader is not always an *xml.Decoder that is
+			// positioned inside the element (while a stream header is expected it is
+			// a plain token reader), and calling DecodeElement on a fresh decoder
+			// that has never seen the start element panics inside encoding/xml.
 			e := stream.Error{}
-			err = xml.NewTokenDecoder(r.r).DecodeElement(&e, &t)
+			d := xml.NewTokenDecoder(xmlstream.MultiReader(
+				xmlstream.Token(t),
+				xmlstream.InnerElement(r.r),
+			))
+			err = d.Decode(&e)
 			if err != nil {
 				return nil, err
 			}
